@@ -128,7 +128,7 @@ class Gen:
                 return ['if', [[self.expr(1), [['continue']]]], None]
             if c2 < 0.93:
                 return ['return', self.expr(1) if r.random() < 0.8 else None] if r.random() < 0.5 else self.log()
-            return ['expr', self.expr(2)]
+            return ['expr', f'({self.expr(2)})']     # parenthesised: `x == 1` as a statement would read as an assignment
         if c < 0.55:
             nb = r.choice([1, 1, 2, 3])
             branches = [[self.expr(2), self.body(depth + 1, in_loop, in_func)] for _ in range(nb)]
